@@ -163,6 +163,19 @@ pub fn plan(prop: &str, tier: &str) -> Option<Plan> {
             b.add("rc/weak-through-zero", all, &[&[("destructed", 1)], &[("destructed", 0)], &[("destructed", 2), ("pre", 2)], &[("destructed", 2), ("pre", 3)], &[("destructed", 1), ("dropin", 1)]], bq);
             b.add("rc/last-weak-vs-destruct", all, &[&[("pre", 0)], &[("pre", 2)], &[("pre", 3)]], bq);
             b.add("rc/weak-many-shares", all, &[], if quick { 2 } else { 4 });
+            {
+                let from = b.units.len();
+                if quick {
+                    for init in 0..5 {
+                        b.add_cases("gen/weak", e(0).set("k1", 1).set("k2", 1).set("init", init).set("pre", 2), crate::scen::gen::weak_cases(1, 1), 12);
+                    }
+                } else {
+                    for (init, pre) in [(0, 2), (1, 2), (2, 2), (2, 3), (3, 2), (4, 2), (4, 3)] {
+                        b.add_cases("gen/weak", e(0).set("k1", 2).set("k2", 2).set("init", init).set("pre", pre), crate::scen::gen::weak_cases(2, 2), 80);
+                    }
+                }
+                b.units[from..].iter_mut().for_each(|u| u.bound = 2);
+            }
             b.goal("rc/weak-holder", "upgrade-none");
             b.goal("rc/weak-holder", "upgrade-some");
             rule = "every schedule with at most B preemptions of each listed weak/strong program; non-trivial = deviates from the default schedule, distinct by event-trace hash";
@@ -221,6 +234,14 @@ pub fn plan(prop: &str, tier: &str) -> Option<Plan> {
             b.add("rc/weak-through-zero", all, &[&[("destructed", 1), ("dropin", 1)], &[("destructed", 1), ("dropin", 0)], &[("destructed", 2), ("dropin", 1)]], bq.max(3));
             b.add("rc/weak-many-shares", all, &[], bq);
             b.add("rc/bulk-shares", all, &[&[("kind", 0)], &[("kind", 1)]], bq);
+            {
+                let from = b.units.len();
+                let (k1, k2) = if quick { (1, 1) } else { (1, 2) };
+                for init in 0..5 {
+                    b.add_cases("gen/weak", e(0).set("k1", k1).set("k2", k2).set("init", init).set("pre", 2), crate::scen::gen::weak_cases(k1 as usize, k2 as usize), 36);
+                }
+                b.units[from..].iter_mut().for_each(|u| u.bound = 2);
+            }
             b.goal("seq/graphs", "cascade-child-destructed");
             b.goal("rc/concurrent-release", "cascade-child-destructed");
             rule = "sequential: every permutation of releasing the external handles of 6 graph shapes x every placement of 0/1/4 rounds after each release x initial epochs; concurrent: every schedule with at most B preemptions of two threads releasing handles of one graph; judged by per-object lifecycle counters and emptiness after a bounded drain";
